@@ -197,6 +197,14 @@ func genC07Plan(r *sim.Rng, tier string) C07Plan {
 			nf = 1030 + r.Intn(300)
 		}
 	}
+	longFragVideo := false
+	if p.kind() == "rtsp" && p.Video != "" && !longFrag && r.Bool(0.05) {
+		// the same for video: more fragmented NAL units in one session than the reorder list has slots
+		longFragVideo = true
+		p.Audio = ""
+		p.MaxPayload = 60
+		nf = 1060 + r.Intn(200)
+	}
 	p.Batch = 1 + r.Intn(12)
 	// frames: video at a (mostly) constant rate with occasional jitter, audio at the codec's frame duration
 	vclock, aclock := 90000, p.clock(1)
@@ -281,6 +289,9 @@ func genC07Plan(r *sim.Rng, tier string) C07Plan {
 				case key && r.Bool(0.3):
 					n = 2000 + r.Intn(30000)
 				}
+				if longFragVideo {
+					n = p.MaxPayload + 5 + r.Intn(100) // every slice needs two or three fragments
+				}
 				if n < 1 {
 					n = 1
 				}
@@ -299,6 +310,10 @@ func genC07Plan(r *sim.Rng, tier string) C07Plan {
 				at += astep * uint64(1+r.Intn(20)) // silence gap
 			}
 		}
+	}
+	if longFragVideo {
+		p.Sched.MaxSteps = 900000
+		p.Faults = append(p.Faults, C07Fault{Kind: "delay", Track: 0, At: 2*nf - 2 - r.Intn(20), Dist: 1 + r.Intn(3)})
 	}
 	if longFrag {
 		p.Sched.MaxSteps = 600000
